@@ -13,6 +13,8 @@ import io
 
 from . import common as C
 
+import json
+
 TABLES = ["A", "B", "C", "D"]
 HIDDEN_TABLE = "__H"
 NICKS = ["aa", "bb", "cc"]
@@ -37,7 +39,7 @@ class Gen:
         self.rng = rng
         self.w = dict(nested=0.14, ref=0.22, formula=0.36, friend=0.4, nick=0.4, once=0.18,
                       hidden_field=0.1, hidden_table=0.08, fwd=0.25, var_stmt=0.25, zero_count=0.1,
-                      count=0.45, dotted=0.2, illtyped=0.03)
+                      count=0.45, dotted=0.2, illtyped=0.03, randref=0.0)
         if weights:
             self.w.update(weights)
         self.features = set()
@@ -90,7 +92,7 @@ class Gen:
         stmts = []
         for p in plan:
             if p[0] == "var":
-                d, ty = self.fdef(0, [], allow_nested=True)
+                d, ty = self.fdef(0, [], allow_nested=True, in_var=True)
                 stmts.append(["var", p[1], d])
                 self.vars[p[1]] = ty
                 self.features.add("var_top")
@@ -176,7 +178,7 @@ class Gen:
             for _ in range(rng.randint(1, 2)):
                 if self.p("var_stmt"):
                     v = rng.choice(self.VARS)
-                    d, ty = self.fdef(depth + 1, [], allow_nested=False)
+                    d, ty = self.fdef(depth + 1, [], allow_nested=False, in_var=True)
                     friends.append(["var", v, d])
                     old = self.vars.get(v)
                     self.vars[v] = ty if old in (None, ty) else "mixed"
@@ -190,6 +192,15 @@ class Gen:
                 del self.vars[k]
             elif self.vars[k] != saved_vars[k]:
                 self.vars[k] = saved_vars[k]
+        # names that certainly have rows once this template has run (for random_reference targets)
+        certain = count is None or (count[0] == "int" and count[1] >= 1)
+        if certain and depth == 0 and not hasattr(self, "rows_exist"):
+            self.rows_exist = set()
+        if certain and depth == 0:
+            if ident(table):
+                self.rows_exist.add(table)
+            if nick:
+                self.rows_exist.add(nick)
         return {"table": table, "nick": nick, "count": count, "once": once, "fields": fields, "friends": friends}
 
     def name_for_ref(self):
@@ -200,13 +211,25 @@ class Gen:
             cands = cands + self.all_top_names
         return rng.choice(cands) if cands else "A"
 
-    def fdef(self, depth, mine, allow_nested):
+    def fdef(self, depth, mine, allow_nested, in_var=False):
         """returns (fdef, guessed type)"""
         rng = self.rng
         r = rng.random()
         if allow_nested and r < self.w["nested"]:
             self.features.add("nested")
             return ["nested", self.template(depth + 1)], "mixed"   # None when count is 0
+        if self.w["randref"] and not in_var and self.p("randref") and (self.known or self.all_top_names):
+            # random_reference to a name that has rows by now (mostly), else to any known / top-level name
+            have = sorted(getattr(self, "rows_exist", ()))
+            if have and rng.random() < 0.9:
+                cands = have
+            elif rng.random() < 0.25:       # error paths: a name without rows at this point
+                cands = list(self.known) if (self.known and rng.random() < 0.6) else list(self.all_top_names)
+            else:
+                cands = []
+            if cands:
+                self.features.add("random_reference")
+                return ["randref", rng.choice(cands)], "row"
         r = rng.random()
         if r < self.w["ref"]:
             name = self.name_for_ref()
@@ -308,6 +331,8 @@ def fdef_yaml(d):
         return {"reference": d[1]}
     if k == "nested":
         return [template_yaml(d[1])]
+    if k == "randref":
+        return {"random_reference": d[1]}
     raise ValueError(k)
 
 
@@ -374,6 +399,8 @@ def fdef_coq(d):
         return f"(FRef {C.cstr(d[1])})"
     if k == "nested":
         return f"(FNested {template_coq(d[1])})"
+    if k == "randref":
+        return f"(FRandRef {C.cstr(d[1])})"
     raise ValueError(k)
 
 
@@ -403,10 +430,41 @@ def value_coq(v):
     raise ValueError(type(v))
 
 
-def recipe_coq(r):
+def recipe_coq(r, draws=()):
+    """draws: the results of random.Random._randbelow recorded over the whole history"""
     opts = C.clist(C.cpair(C.cstr(n), value_coq(v)) for n, v in r["options"])
     stmts = C.clist(stmt_coq(s) for s in r["stmts"])
-    return f"(mkRecipe {r['version']} {opts} {stmts})"
+    return f"(mkRecipe {r['version']} {opts} {stmts} {C.clist(C.cz(d) for d in draws)})"
+
+
+def uses_random(recipe):
+    return '"randref"' in json.dumps(recipe["stmts"])
+
+
+def chooser_for(recipe, offset=0):
+    """deterministic stand-in for random.Random._randbelow: a function of the width and of the
+    position of the draw in the whole history (so split and unsplit runs see the same stream)"""
+    raw = recipe.get("raw") or [0]
+    bias = recipe.get("bias", "mix")
+
+    def chooser(n, idx):
+        r = raw[(idx + offset) % len(raw)]
+        if bias == "lo":
+            return 0 if r % 3 else r % n
+        if bias == "hi":
+            return n - 1 if r % 3 else r % n
+        return (0, n - 1, r % n)[r % 3]
+    return chooser
+
+
+def obs_draws(obs):
+    """all recorded draws of an observation (one run or a chain), in order"""
+    if isinstance(obs, dict) and "runs" in obs:
+        out = []
+        for r in obs["runs"]:
+            out.extend(r.get("draws", []) if isinstance(r, dict) else [])
+        return out
+    return list(obs.get("draws", [])) if isinstance(obs, dict) else []
 
 
 def ovalue_coq(v):
@@ -474,8 +532,15 @@ def make_capture():
 
 
 def run_recipe(recipe, reps=1, user_options=None, continuation=None, want_continuation=False,
-               target=None):
-    """One run.  Returns {"ok": rows, "cont": yaml text|None} or {"err": kind, "rows": partial}."""
+               target=None, draw_offset=0):
+    """One run.  Returns {"ok": rows, "cont": yaml text|None} or {"err": kind, "rows": partial}.
+    Recipes with random_reference run with injected draws (chooser_for) and report them."""
+    if uses_random(recipe) and draw_offset is not None:
+        from .oracle_random import injected_randbelow
+        with injected_randbelow(chooser=chooser_for(recipe, draw_offset)) as rec:
+            o = run_recipe(recipe, reps, user_options, continuation, want_continuation, target, draw_offset=None)
+        o["draws"] = list(rec.values)
+        return o
     from snowfakery.data_generator import generate
     from snowfakery.api import SnowfakeryApplication
     from snowfakery.data_generator_runtime import StoppingCriteria
@@ -504,7 +569,7 @@ def proj_case_coq(proj, recipe, reps, obs):
         exp = f"(Ok {rows_coq(obs['ok'])})"
     else:
         exp = f"(Err {C.cerr(obs['err'])})"
-    return f"CProj {proj} {recipe_coq(recipe)} {C.cnat(reps)} {exp}"
+    return f"CProj {proj} {recipe_coq(recipe, obs.get('draws', []))} {C.cnat(reps)} {exp}"
 
 
 def ids_by_table(rows):
